@@ -48,6 +48,7 @@ def run(ctx):
     compare_inline(ctx, eq, inl, a.get("records", {}), b.get("records", {}))
     # (2b) the real code renders the inlined program like the original
     real_inline(ctx, eq, inl, a.get("records", {}))
+    macro_versions_part(ctx)
     for f in ctx.known():
         ctx.witness(f)
     ctx.exhaustive = True
@@ -121,3 +122,62 @@ def real_inline(ctx, progs, inl, ra):
                 if len(ctx.violations) > 6:
                     return
     ctx.replays += 2 * n
+
+
+def macro_versions_part(ctx):
+    """use-macro renders what the macro's defining element is NOW: after the defining template got a new body
+    (write(), or its file changed under auto_reload -- whoever notices the change first), a use shows the new
+    element, its new slots filled, like a use of a freshly made template"""
+    import os
+    import shutil
+    import sys
+    import tempfile
+    from harness import REPO_SRC
+    sys.path.insert(0, REPO_SRC)
+    from chameleon import PageTemplate, PageTemplateFile
+    V = {1: '<div><p metal:define-macro="m">one <i metal:define-slot="a">da</i></p><p metal:define-macro="gone">g</p></div>',
+         2: '<div><ul metal:define-macro="m">two <i metal:define-slot="b">db</i> <u metal:define-slot="a">da2</u></ul><p metal:define-macro="new">n</p></div>',
+         3: '<div><ol metal:define-macro="m">three</ol></div>'}
+    user_src = ('<x metal:use-macro="lib.macros[\'m\']"><b metal:fill-slot="a">FA</b><b metal:fill-slot="b">FB</b></x>'
+                '[${sorted(lib.macros.names)}]')
+    n = 0
+
+    def fresh(v):
+        return PageTemplate(user_src)(lib=PageTemplate(V[v]))
+    d = tempfile.mkdtemp(prefix="c09v_")
+    try:
+        for order in ((1, 2), (1, 2, 3), (2, 1, 2), (3, 1)):
+            for how in ("write", "file-macro-first", "file-render-first", "file-names-first"):
+                user = PageTemplate(user_src)
+                path = os.path.join(d, "lib.pt")
+                lib = None
+                for k, v in enumerate(order):
+                    if how == "write":
+                        if lib is None:
+                            lib = PageTemplate(V[v])
+                        else:
+                            lib.write(V[v])
+                    else:
+                        open(path, "w").write(V[v])
+                        os.utime(path, (1000 + 10 * k, 1000 + 10 * k))
+                        if lib is None:
+                            lib = PageTemplateFile(path, auto_reload=True)
+                        if how == "file-render-first":
+                            lib()
+                        elif how == "file-names-first":
+                            list(lib.macros.names)
+                    n += 1
+                    try:
+                        got = user(lib=lib)
+                    except Exception as e:   # noqa
+                        got = "EXC %s: %s" % (type(e).__name__, str(e).splitlines()[:1])
+                    want = fresh(v)
+                    if got != want:
+                        ctx.violation("macro library given the versions %s (%s): the use after version %d renders %r; a use of a new "
+                                      "template of that version renders %r" % (list(order), how, v, got, want),
+                                      dict(kind="macro-versions", order=list(order), how=how))
+                        return
+    finally:
+        shutil.rmtree(d, ignore_errors=True)
+    ctx.replays += n
+    ctx.notes["macro_version_cases"] = n
